@@ -182,15 +182,15 @@ def acc_cases(seed, n, maxdim, groups, path, large_share=0.25):
                     a0 = [0, 0]
                     for w in stack:
                         a0 = [a0[0] + w["s"][0], a0[1] + w["s"][1]]
-                    n = c if by == "row" else r
-                    keys = [(i * 3) // max(n, 1) for i in range(n)]
+                    kn = c if by == "row" else r
+                    keys = [(i * 3) // max(kn, 1) for i in range(kn)]
                     if pat == 4: keys.reverse()
-                    elif pat == 5 and n: keys[-1] = rnd.randint(0, 2)
-                    elif pat == 6:
+                    elif pat == 5 and kn: keys[-1] = rnd.randint(0, 2)
+                    elif pat == 6 and kn:
                         for _ in range(rnd.randint(1, 3)):
-                            i1, i2 = rnd.randrange(n), rnd.randrange(n); keys[i1], keys[i2] = keys[i2], keys[i1]
-                    elif pat == 7: keys = [1] * n
-                    for i in range(n):
+                            i1, i2 = rnd.randrange(kn), rnd.randrange(kn); keys[i1], keys[i2] = keys[i2], keys[i1]
+                    elif pat == 7: keys = [1] * kn
+                    for i in range(kn):
                         x, y = (a0[0] + i, a0[1] + line) if by == "row" else (a0[0] + line, a0[1] + i)
                         ids[y * nc + x] = ids[y * nc + x] // 3 * 3 + keys[i]
             else:
@@ -199,7 +199,7 @@ def acc_cases(seed, n, maxdim, groups, path, large_share=0.25):
                     "calls": [{"op": op, "a": a, "x": None}]}
             f.write(json.dumps(case) + "\n")
             made += 1
-    return made
+    return n
 
 
 def iter_cases(seed, n, maxdim, kinds, path, large_share=0.3):
